@@ -51,8 +51,8 @@ const cvSW = pilosa.ShardWidth
 var cvRowIDs = []uint64{0, 1, 2, 255, 256, 65535, 65536, 1 << 31}
 var cvColOffsets = []uint64{0, 1, 2, 65535, 65536, 65537, cvSW/2 + 3, cvSW - 2, cvSW - 1}
 var cvShards = []uint64{0, 1, 3} // shard 2 stays empty: the export has to cope with a gap
-var cvRowKeys = []string{"r", "row2", "a,b", `say "hi"`, `"`, ",", "ü", "日本語", "x y", "'q'", "R", "0", "1"}
-var cvColKeys = []string{"c", "col2", "c,d", `q"uo"te`, `""`, ",,", "ö-ä", "列", "sp ace", "C", "0", "7", "a;b", "tab\there"}
+var cvRowKeys = []string{"r", "row2", "a,b", `say "hi"`, `"`, ",", "ü", "日本語", "x y", "'q'", "R", "0", "1", " lead", "trail ", "\u00a0nbsp\u00a0"}
+var cvColKeys = []string{"c", "col2", "c,d", `q"uo"te`, `""`, ",,", "ö-ä", "列", "sp ace", "C", "0", "7", "a;b", "tab\there", " c ", "end\t"}
 
 type cvPair struct{ Row, Col string }
 
@@ -270,6 +270,12 @@ func (r *cvRun) export(index string, toFile bool, name string) ([]byte, string, 
 	path := filepath.Join(r.dir, name)
 	if toFile {
 		cm.Path = path
+		// the target file may exist already (an earlier, longer export): the
+		// export must replace it, not write over its beginning
+		stale := bytes.Repeat([]byte("4000000000,4000000000\n"), 64)
+		if err := ioutil.WriteFile(path, stale, 0o644); err != nil {
+			return nil, "", err
+		}
 	}
 	err := r.guard("export", func() error { return cm.Run(context.Background()) })
 	if err != nil {
